@@ -1,8 +1,7 @@
 (** Reader half of the metadata round trip (C04):
       meta_ok m -> float_oracle_ok pf64 pf32 m -> extract_all pf64 pf32 fdiv (tree_of m) = Ok (reader_view m)
-    The document-level lookups go through [descendants()], so the proof shows that nothing in
-    front of data3D / images2D in document order carries these names (for images2D this needs the
-    condition of [meta_ok] on extension attribute names). *)
+    The lookup of data3D goes through [descendants()], so the proof shows that nothing in front of
+    it in document order carries that name; images2D is looked up among the children of e57Root. *)
 From Coq Require Import Strings.String.
 From Coq Require Import List Bool NArith ZArith Lia.
 From E57 Require Import Base.Prelude Model.Meta Model.MetaFile Model.XmlTree Model.XmlExtract
@@ -76,8 +75,7 @@ Lemma nf_int name z : xstr_eqb name nm = false -> nf nm (t_int sc name z).
 Proof. intros H. apply nf_leaf. exact H. Qed.
 End Names.
 
-(** nothing inside a point cloud is called images2D, given the condition on extension attribute names;
-    nothing inside a date is called data3D or images2D *)
+(** nothing inside a date is called data3D *)
 Section NoImages2D.
 Variable exts : list extension.
 Let sc := scope_of exts.
@@ -90,29 +88,6 @@ Proof.
   repeat constructor; apply nf_leaf; assumption.
 Qed.
 
-Lemma nf_limit name v : xstr_eqb name IMAGES2D = false -> nf IMAGES2D (t_limit sc name v).
-Proof. intros H. destruct v as [f|f|z|z]; apply nf_leaf; exact H. Qed.
-
-Lemma nf_record r : record_name_ok exts (r_name r) = true -> nf IMAGES2D (t_record sc exts r).
-Proof.
-  intros H. destruct (t_record_shape exts r) as (attrs & text & E). fold sc in E. rewrite E.
-  apply nf_elem; [|constructor; [apply nf_text|constructor]].
-  destruct (r_name r); try reflexivity.
-  cbn [record_name_ok record_xname xn_local] in *.
-  destruct (ext_uri exts namespace); [|discriminate].
-  apply andb_true_iff in H. destruct H as [_ H]. apply negb_true_iff in H. exact H.
-Qed.
-
-Lemma nf_pointcloud pc :
-  forallb (record_ok exts) (pc_prototype pc) = true -> nf IMAGES2D (t_pointcloud sc exts pc).
-Proof.
-  intros H. unfold t_pointcloud, t_struct, t_vector, t_cartesian_bounds, t_spherical_bounds, t_index_bounds,
-    t_color_limits, t_intensity_limits, t_transform, t_date_time, t_points, t_struct, t_string, t_float, t_int.
-  nf_tac; try (apply nf_limit; reflexivity);
-    try (apply Forall_map_nf; intros ? _; apply nf_leaf; reflexivity).
-  apply Forall_map_nf. intros r Hr. apply nf_record.
-  rewrite forallb_forall in H. specialize (H r Hr). unfold record_ok in H. apply andb_true_iff in H. tauto.
-Qed.
 End NoImages2D.
 
 (** * Document level *)
@@ -191,20 +166,10 @@ Proof.
     change (dffind (has_tag_name (B"data3D")) []) with (@None xnode). cbv beta iota.
     rewrite !dffind_opt1_skip by (intro; first [apply nf_leaf; reflexivity | apply nf_date_time; reflexivity]).
     rewrite dffind_cons_hit by reflexivity. reflexivity. }
-  assert (Hi2 : find_doc_desc (B"images2D") (tree_of (mkFileMeta r exts pcs ims)) =
+  assert (Hi2 : images2d_node (tree_of (mkFileMeta r exts pcs ims)) =
                 Some (t_vector sc (B"images2D") true (map (t_image sc) ims))).
-  { unfold find_doc_desc, doc_descendants, tree_of. cbn [xd_children flat_map fm_extensions]. rewrite app_nil_r.
-    unfold t_root. cbn [fm_root fm_pointclouds fm_images]. rewrite find_descendants_struct. eval_ifs.
-    rewrite !dffind_app.
-    do 4 (rewrite dffind_cons_skip by (apply nf_leaf; reflexivity)).
-    change (dffind (has_tag_name (B"images2D")) []) with (@None xnode). cbv beta iota.
-    rewrite !dffind_opt1_skip by (intro; first [apply nf_leaf; reflexivity | apply nf_date_time; reflexivity]).
-    rewrite dffind_cons_skip.
-    - rewrite dffind_cons_hit by reflexivity. reflexivity.
-    - unfold t_vector. apply nf_el; [reflexivity|]. apply Forall_map_nf. intros pc Hpc.
-      apply nf_pointcloud.
-      match goal with H : forallb (pc_ok exts) pcs = true |- _ => rewrite forallb_forall in H; specialize (H pc Hpc); unfold pc_ok in H end.
-      split_and. assumption. }
+  { unfold images2d_node. rewrite Hroot. cbn [opt_case]. unfold root, t_root, t_struct.
+    cbn [fm_root fm_pointclouds fm_images]. fc. }
   unfold extract_all.
   (* root *)
   assert (Er : root_from_document pf64 (tree_of (mkFileMeta r exts pcs ims)) = Ok (reader_root r)).
